@@ -234,7 +234,7 @@ func hExercise(tok *Biscuit, rootPub ed25519.PublicKey, rng *chainRNG) {
 	if data, err := tok.Serialize(); err == nil {
 		Unmarshal(data)
 	}
-	a, err := tok.AuthorizerFor(WithSingularRootPublicKey(rootPub))
+	a, err := tok.AuthorizerFor(WithSingularRootPublicKey(rootPub), gPatient)
 	if err == nil {
 		vCover("verified")
 		a.AddFact(Fact{Predicate{Name: "s", IDs: []Term{Integer(vInt64("azfact"))}}})
@@ -257,7 +257,7 @@ func hExercise(tok *Biscuit, rootPub ed25519.PublicKey, rng *chainRNG) {
 	}
 	if s, err := tok.Seal(rng); err == nil {
 		s.Serialize()
-		s.AuthorizerFor(WithSingularRootPublicKey(rootPub))
+		s.AuthorizerFor(WithSingularRootPublicKey(rootPub), gPatient)
 	}
 }
 
@@ -408,7 +408,7 @@ func VerifC10Policies() {
 		return
 	}
 	g := gBuildToken(gBlock{facts: []gAtom{{name: "a", c: 1}}}, nil)
-	a, err := NewVerifier(g.tok)
+	a, err := NewVerifier(g.tok, gPatient)
 	if err != nil {
 		return
 	}
@@ -421,6 +421,6 @@ func VerifC10Policies() {
 		a.Query(Rule{Head: Predicate{Name: "r", IDs: []Term{Variable("v")}}, Body: []Predicate{{Name: "a", IDs: []Term{Variable("v")}}}})
 	}
 	// arbitrary non-message bytes
-	a2, _ := NewVerifier(g.tok)
+	a2, _ := NewVerifier(g.tok, gPatient)
 	vAssert(a2.LoadPolicies(vBytes("garbage", 3)) != nil, "C10.policies-garbage-rejected")
 }
